@@ -112,10 +112,20 @@ Qed.
 Lemma items_of_clean sh : items_of (fst (clean sh)) = items_of sh.
 Proof. unfold clean. now rewrite items_of_clean_loop. Qed.
 
+(* insert_ns either leaves the sheet alone or returns the cleaned sheet *)
+Lemma insert_ns_cases r idx io sh :
+  fst (insert_ns r idx io sh) = sh \/
+  exists i, place_ns idx io sh = inl i /\ fst (insert_ns r idx io sh) = fst (clean (insert_at i (RNs r) sh)).
+Proof.
+  unfold insert_ns. destruct (place_ns idx io sh) as [i|]; [|now left].
+  destruct (same_binding (view sh) r); [now left|].
+  destruct (clean (insert_at i (RNs r) sh)) as [sh' oc] eqn:E.
+  destruct oc; simpl; [right; exists i; split; [reflexivity|now rewrite E]|now left|right; exists i; split; [reflexivity|now rewrite E]].
+Qed.
+
 Lemma items_of_insert r idx io sh : items_of (fst (insert_ns r idx io sh)) = items_of sh.
 Proof.
-  unfold insert_ns. destruct (place_ns idx io sh); [|reflexivity].
-  destruct (same_binding (view sh) r); [reflexivity|].
+  destruct (insert_ns_cases r idx io sh) as [E|(i & _ & E)]; rewrite E; [reflexivity|].
   now rewrite items_of_clean, items_of_insert_ns.
 Qed.
 
@@ -260,8 +270,7 @@ Qed.
 
 Lemma ordered_insert_ns r idx io sh : ordered sh = true -> ordered (fst (insert_ns r idx io sh)) = true.
 Proof.
-  intros Ho. unfold insert_ns. destruct (place_ns idx io sh) as [i|] eqn:E; [|exact Ho].
-  destruct (same_binding (view sh) r); [exact Ho|].
+  intros Ho. destruct (insert_ns_cases r idx io sh) as [E|(i & Ep & E)]; rewrite E; [exact Ho|].
   unfold clean. apply ordered_clean_loop. simpl. apply ordered_insert; [|exact Ho].
   now apply (place_ns_nobody idx io).
 Qed.
@@ -468,8 +477,7 @@ Proof.
 Qed.
 Lemma allgood_insert r idx io sh : good r -> AllGood sh -> AllGood (fst (insert_ns r idx io sh)).
 Proof.
-  intros Hr H. unfold insert_ns. destruct (place_ns idx io sh); [|exact H].
-  destruct (same_binding (view sh) r); [exact H|].
+  intros Hr H. destruct (insert_ns_cases r idx io sh) as [E|(i & _ & E)]; rewrite E; [exact H|].
   unfold clean, AllGood. apply forall_clean_loop. simpl. now apply forall_insert.
 Qed.
 Lemma allgood_delete i sh : AllGood sh -> AllGood (fst (delete_rule i sh)).
@@ -586,8 +594,7 @@ Qed.
 Lemma insert_count u r idx io sh :
   used u sh = true -> 1 <= cnt u sh -> 1 <= cnt u (fst (insert_ns r idx io sh)).
 Proof.
-  intros Hu Hn. unfold insert_ns. destruct (place_ns idx io sh) as [i|]; [|exact Hn].
-  destruct (same_binding (view sh) r); [exact Hn|].
+  intros Hu Hn. destruct (insert_ns_cases r idx io sh) as [E|(i & _ & E)]; rewrite E; [exact Hn|].
   unfold clean. apply clean_loop_count; simpl.
   - rewrite used_items, items_of_insert_ns, <- used_items. exact Hu.
   - rewrite cnt_insert. lia.
@@ -1084,3 +1091,307 @@ Lemma selector_op_spec o sh :
   nsl (fst (sstep o sh)) = nsl sh /\
   forall it, In it (items_of (fst (sstep o sh))) -> In it (items_of sh) \/ exists pi, resolve (view sh) pi = Some it.
 Proof. split; [apply sstep_nsl|intros it; apply sstep_items]. Qed.
+
+(* ================================================================== re-parsing the serialised sheet (positive part) *)
+(* an item can be spelt under the mapping v: its URI has a usable prefix *)
+Definition default_is (v : dict) (u : str) : bool :=
+  match dget v [] with Some du => eqs du u | None => false end.
+Definition spellable_b (v : dict) (it : item) : bool :=
+  match it with
+  | IPair k u _ =>
+      let attr := kind_eqb k KAttr in
+      match u with
+      | UAny => true
+      | UNone => negb attr && negb (dhas v [])
+      | UStr [] => negb attr
+      | UStr u => if attr
+                  then negb (default_is v u) &&        (* an attribute needs a NON-default prefix *)
+                       match prefix_for v u with Some (_ :: _) => true | _ => false end
+                  else mems u (dvals v)                (* default namespace or any prefix *)
+      end
+  | IAttr _ | IOther => true
+  end.
+Definition Spellable (sh : sheet) : Prop := forallb (spellable_b (view sh)) (items_of sh) = true.
+Definition UrisNonEmpty (sh : sheet) : Prop := forallb (fun r => negb (eqs (uri r) [])) (nsl sh) = true.
+
+Lemma prefix_for_In v u p : prefix_for v u = Some p -> In (p, u) v.
+Proof.
+  induction v as [|[p' u'] t IH]; simpl; [discriminate|]. destruct (eqs u' u) eqn:E.
+  - apply eqs_spec in E. intros H; inversion H; subst. now left.
+  - intros H. right. auto.
+Qed.
+Lemma prefix_for_some v u : In u (dvals v) -> exists p, prefix_for v u = Some p.
+Proof.
+  induction v as [|[p' u'] t IH]; simpl; [tauto|]. destruct (eqs u' u) eqn:E; [eauto|].
+  intros [H|H]; [apply eqs_false in E; contradiction|auto].
+Qed.
+Lemma prefix_for_none v u : ~ In u (dvals v) -> prefix_for v u = None.
+Proof.
+  induction v as [|[p' u'] t IH]; simpl; [reflexivity|]. intros H. destruct (eqs u' u) eqn:E.
+  - apply eqs_spec in E. tauto.
+  - apply IH. tauto.
+Qed.
+
+(* the serialiser's choice, case by case *)
+Lemma form_of_default v u : default_is v u = true -> form_of v (UStr u) = FNone.
+Proof.
+  unfold default_is, form_of. destruct (dget v []) as [[|c0 du]|]; try discriminate; intros H; cbn in *; rewrite H; reflexivity.
+Qed.
+Lemma form_of_prefixed v u : default_is v u = false -> form_of v (UStr u) =
+  match prefix_for v u with Some [] => FEmpty | Some p => FPfx p | None => FEmpty end.
+Proof.
+  unfold default_is, form_of. destruct (dget v []) as [[|c0 du]|]; intros H; cbn in *; rewrite ?H; reflexivity.
+Qed.
+Lemma form_of_none v : dget v [] = None -> form_of v UNone = FNone.
+Proof. unfold form_of. intros ->. reflexivity. Qed.
+Lemma form_of_any v : form_of v UAny = FStar.
+Proof. unfold form_of. destruct (dget v []) as [[|c du]|]; reflexivity. Qed.
+
+Lemma resolve_ser_item v d it :
+  NoDup (map fst v) -> ~ In [] (dvals v) -> (forall p, dget d p = dget v p) ->
+  spellable_b v it = true -> resolve d (ser_item v it) = Some it.
+Proof.
+  intros Hk He Hd Hs. destruct it as [k u n|n|]; [|reflexivity|reflexivity].
+  unfold ser_item. destruct u as [| |u].
+  - (* bound to no declaration: only spellable without a default namespace *)
+    simpl in Hs. apply andb_true_iff in Hs as [Hka Hdef]. unfold dhas in Hdef.
+    destruct (dget v []) eqn:E; [discriminate|]. rewrite (form_of_none v E).
+    destruct k; simpl in *; try discriminate; rewrite Hd, E; reflexivity.
+  - rewrite form_of_any. destruct k; reflexivity.
+  - destruct u as [|c u].
+    + (* '' = no namespace *)
+      simpl in Hs. assert (E0 : default_is v [] = false).
+      { unfold default_is. destruct (dget v []) as [du|] eqn:E; [|reflexivity]. apply eqs_false. intros ->.
+        apply He. now apply dget_In_vals in E. }
+      rewrite (form_of_prefixed v [] E0), (prefix_for_none v [] He).
+      destruct k; simpl in *; try discriminate; reflexivity.
+    + set (u0 := c :: u) in *. destruct (default_is v u0) eqn:Edef.
+      * (* the default namespace *)
+        rewrite (form_of_default v u0 Edef). unfold default_is in Edef.
+        destruct (dget v []) as [du|] eqn:E; [|discriminate]. apply eqs_spec in Edef. subst du.
+        destruct k; simpl in Hs; try (simpl; rewrite Hd, E; reflexivity).
+        unfold default_is in Hs. rewrite E in Hs. unfold u0 in Hs. rewrite eqs_refl in Hs. discriminate.
+      * rewrite (form_of_prefixed v u0 Edef).
+        assert (Hin : In u0 (dvals v)).
+        { destruct k; simpl in Hs; unfold u0 in *; try (now apply mems_In in Hs).
+          apply andb_true_iff in Hs as [_ Hs]. destruct (prefix_for v (c :: u)) as [p|] eqn:Ep; [|discriminate].
+          apply prefix_for_In in Ep. apply (in_map snd) in Ep. exact Ep. }
+        destruct (prefix_for_some v u0 Hin) as (p & Ep). rewrite Ep.
+        assert (Eg : dget d p = Some u0).
+        { rewrite Hd. apply dget_In_nodup; [exact Hk|]. now apply prefix_for_In. }
+        destruct p as [|c1 p].
+        -- exfalso. rewrite Hd in Eg. unfold default_is in Edef. rewrite Eg in Edef. unfold u0 in Edef.
+           rewrite eqs_refl in Edef. discriminate.
+        -- destruct k; simpl; rewrite Eg; reflexivity.
+Qed.
+
+(* the dictionary a re-parse accumulates from the @namespace rules of a sheet *)
+Fixpoint dfold (d : dict) (sh : sheet) : dict :=
+  match sh with
+  | [] => d
+  | RNs r :: t => dfold (dset d (prefix r) (uri r)) t
+  | _ :: t => dfold d t
+  end.
+Lemma dfold_no_ns d sh : existsb is_ns sh = false -> dfold d sh = d.
+Proof.
+  revert d; induction sh as [|x t IH]; intros d H; simpl; [reflexivity|].
+  simpl in H. apply orb_false_iff in H as [H1 H2]. destruct x; simpl in *; try discriminate; now apply IH.
+Qed.
+
+Section Reparse.
+Variable v : dict.
+Hypothesis Hk : NoDup (map fst v).
+Hypothesis He : ~ In [] (dvals v).
+
+Lemma resolve_all_ser d its :
+  (forall p, dget d p = dget v p) -> forallb (spellable_b v) its = true ->
+  resolve_all d (map (ser_item v) its) = Some its.
+Proof.
+  intros Hd. induction its as [|x t IH]; simpl; [reflexivity|]. intros H. apply andb_true_iff in H as [H1 H2].
+  rewrite (resolve_ser_item v d x Hk He Hd H1), (IH H2). reflexivity.
+Qed.
+Lemma resolve_rules_ser d rs :
+  (forall p, dget d p = dget v p) -> forallb (spellable_b v) (concat rs) = true ->
+  resolve_rules d (map (map (ser_item v)) rs) = rs.
+Proof.
+  intros Hd. induction rs as [|x t IH]; simpl; [reflexivity|]. rewrite forallb_app. intros H.
+  apply andb_true_iff in H as [H1 H2]. rewrite (resolve_all_ser d x Hd H1), (IH H2). reflexivity.
+Qed.
+
+Lemma reparse_loop : forall sh d e acc,
+  ordered sh = true ->
+  (e <= 2 \/ existsb is_ns sh = false) ->
+  AllGood sh ->
+  (forall p, dget (dfold d sh) p = dget v p) ->
+  forallb (spellable_b v) (items_of sh) = true ->
+  items_of (parse_loop d e acc (flat_map (ser_rule v) sh)) = items_of acc ++ items_of sh.
+Proof.
+  induction sh as [|x t IH]; intros d e acc Ho H2 Hg H4 Hs.
+  - simpl. unfold items_of. simpl. now rewrite app_nil_r.
+  - inversion Hg as [|? ? Hgx Hgt]; subst.
+    assert (Hst : forallb (spellable_b v) (rule_items x) = true /\ forallb (spellable_b v) (items_of t) = true).
+    { unfold items_of in Hs. simpl in Hs. rewrite forallb_app in Hs. now apply andb_true_iff in Hs. }
+    destruct Hst as [Hsx Hst].
+    assert (Eit : forall a, items_of a ++ items_of (x :: t) = (items_of a ++ rule_items x) ++ items_of t).
+    { intros a. unfold items_of. simpl. now rewrite app_assoc. }
+    destruct x as [r|its|rs| |].
+    + (* @namespace rule *)
+      simpl in Hgx. destruct (good_ser r Hgx) as [Eser _].
+      assert (E2 : e <= 2).
+      { destruct H2 as [H2|H2]; [exact H2|]. simpl in H2. discriminate. }
+      cbn [flat_map ser_rule]. rewrite Eser. cbn [app parse_loop].
+      assert (El : Nat.ltb 2 e = false) by (apply Nat.ltb_ge; exact E2). rewrite El.
+      rewrite Eit. cbn [rule_items]. rewrite app_nil_r. simpl in Ho. simpl in H4.
+      destruct (dhas d (prefix r)).
+      * rewrite (IH (dset d (prefix r) (uri r)) 2 (map (replace_uri (prefix r) (uri r)) acc));
+          [now rewrite items_map_replace|exact Ho|left; lia|exact Hgt|exact H4|exact Hst].
+      * rewrite (IH (dset d (prefix r) (uri r)) 2 (acc ++ [RNs (mk_text (prefix r) (uri r))]));
+          [|exact Ho|left; lia|exact Hgt|exact H4|exact Hst].
+        rewrite items_of_app. unfold items_of at 2. simpl. now rewrite app_nil_r.
+    + (* rule set *)
+      simpl in Ho. apply negb_true_iff in Ho.
+      assert (Hd : forall p, dget d p = dget v p).
+      { intros p. rewrite <- H4. simpl. now rewrite (dfold_no_ns d t Ho). }
+      cbn [flat_map ser_rule app parse_loop]. cbn [rule_items] in Hsx. rewrite (resolve_all_ser d its Hd Hsx).
+      rewrite (IH d 3 (acc ++ [RStyle its]));
+        [|now apply no_ns_ordered|right; exact Ho|exact Hgt|intros p; rewrite (dfold_no_ns d t Ho); apply Hd|exact Hst].
+      rewrite Eit. rewrite items_of_app. unfold items_of at 2. simpl. now rewrite app_nil_r.
+    + (* @media *)
+      simpl in Ho. apply negb_true_iff in Ho.
+      assert (Hd : forall p, dget d p = dget v p).
+      { intros p. rewrite <- H4. simpl. now rewrite (dfold_no_ns d t Ho). }
+      destruct rs as [|r0 rs'].
+      * cbn [flat_map ser_rule app]. rewrite Eit. cbn [rule_items concat]. rewrite app_nil_r.
+        apply IH; [now apply no_ns_ordered|right; exact Ho|exact Hgt|intros p; rewrite (dfold_no_ns d t Ho); apply Hd|exact Hst].
+      * cbn [flat_map ser_rule app parse_loop]. cbn [rule_items] in Hsx.
+        rewrite (resolve_rules_ser d (r0 :: rs') Hd Hsx).
+        rewrite (IH d 3 (acc ++ [RMedia (r0 :: rs')]));
+          [|now apply no_ns_ordered|right; exact Ho|exact Hgt|intros p; rewrite (dfold_no_ns d t Ho); apply Hd|exact Hst].
+        rewrite Eit. rewrite items_of_app. unfold items_of at 2. simpl. now rewrite !app_nil_r.
+    + (* @charset *)
+      simpl in Ho. simpl in H4. cbn [flat_map ser_rule app parse_loop]. rewrite Eit. cbn [rule_items]. rewrite app_nil_r.
+      assert (H2' : forall e', (e <= 2 -> e' <= 2) -> e' <= 2 \/ existsb is_ns t = false).
+      { intros e' Hle. destruct H2 as [H2|H2]; [left; auto|right; simpl in H2; exact H2]. }
+      destruct (Nat.ltb 0 e) eqn:E0.
+      * apply IH; [exact Ho|apply H2'; auto|exact Hgt|exact H4|exact Hst].
+      * rewrite (IH d 1 (acc ++ [RCharset])); [|exact Ho|apply H2'; intros; lia|exact Hgt|exact H4|exact Hst].
+        rewrite items_of_app. unfold items_of at 2. simpl. now rewrite app_nil_r.
+    + (* comment *)
+      simpl in Ho. simpl in H4. cbn [flat_map ser_rule app parse_loop]. rewrite Eit. cbn [rule_items]. rewrite app_nil_r.
+      rewrite (IH d (Nat.max 1 e) (acc ++ [RComment])); [|exact Ho| |exact Hgt|exact H4|exact Hst].
+      * rewrite items_of_app. unfold items_of at 2. simpl. now rewrite app_nil_r.
+      * destruct H2 as [H2|H2]; [left; destruct e; simpl; lia|right; simpl in H2; exact H2].
+Qed.
+End Reparse.
+
+Lemma dfold_fresh sh : forall d,
+  NoDup (map fst d ++ map prefix (nsl sh)) -> dfold d sh = d ++ ns_pairs sh.
+Proof.
+  unfold ns_pairs. induction sh as [|x t IH]; intros d H; simpl; [now rewrite app_nil_r|].
+  destruct x; simpl; try (now apply IH).
+  simpl in H. assert (Hf : ~ In (prefix r) (map fst d)).
+  { apply NoDup_remove_2 in H. intros Hin. apply H. apply in_or_app. now left. }
+  rewrite (dset_fresh d _ _ Hf). rewrite IH.
+  - now rewrite <- app_assoc.
+  - rewrite map_app. simpl. rewrite <- app_assoc. simpl.
+    apply NoDup_remove_1 in H as H'. 
+    replace (map fst d ++ prefix r :: map prefix (nsl t)) with (map fst d ++ [prefix r] ++ map prefix (nsl t)) by reflexivity.
+    apply NoDup_remove_2 in H as H2.
+    clear - H' H2 H. revert H. generalize (map prefix (nsl t)) (map fst d) (prefix r). clear.
+    intros l2 l1 a H. exact H.
+Qed.
+
+Lemma dget_same_elements (l1 l2 : dict) k :
+  NoDup (map fst l1) -> NoDup (map fst l2) -> (forall x, In x l1 <-> In x l2) -> dget l1 k = dget l2 k.
+Proof.
+  intros N1 N2 Hx. destruct (dget l1 k) as [a|] eqn:E1.
+  - apply (dget_In_nodup l1 k a N1) in E1. apply Hx in E1. symmetry. now apply dget_In_nodup.
+  - destruct (dget l2 k) as [b|] eqn:E2; [|reflexivity].
+    apply (dget_In_nodup l2 k b N2) in E2. apply Hx in E2. apply (dget_In_nodup l1 k b N1) in E2. congruence.
+Qed.
+
+(* THE positive statement: a clean sheet whose items are all spellable re-parses to the same items *)
+Lemma reparse_items sh :
+  Clean sh -> AllGood sh -> ordered sh = true -> UrisNonEmpty sh -> Spellable sh ->
+  items_of (reparse sh) = items_of sh /\ pairs (reparse sh) = pairs sh.
+Proof.
+  intros Hc Hg Ho Hu Hs.
+  assert (E : items_of (reparse sh) = items_of sh).
+  { unfold reparse, parse, ser. rewrite items_of_clean.
+    assert (Ev := view_clean sh Hc). destruct Hc as [Hp Hur].
+    assert (Nk : NoDup (map fst (rev (ns_pairs sh)))).
+    { rewrite map_rev. unfold ns_pairs. rewrite map_map. simpl. now apply NoDup_rev. }
+    rewrite (reparse_loop (view sh)); try assumption.
+    - reflexivity.
+    - now rewrite Ev.
+    - rewrite Ev. unfold dvals. rewrite map_rev, <- in_rev. unfold ns_pairs. rewrite map_map. simpl.
+      intros Hin. apply in_map_iff in Hin as (r & Hr & Hin). unfold UrisNonEmpty in Hu.
+      rewrite forallb_forall in Hu. specialize (Hu r Hin). rewrite Hr, eqs_refl in Hu. discriminate.
+    - left. lia.
+    - intros p. rewrite dfold_fresh by (simpl; exact Hp). simpl. rewrite Ev.
+      apply dget_same_elements.
+      + unfold ns_pairs. rewrite map_map. simpl. exact Hp.
+      + exact Nk.
+      + intros x. apply in_rev. }
+  split; [exact E|]. unfold pairs. now rewrite E.
+Qed.
+
+Lemma reparse_items_reachable stmts ops :
+  let sh := run ops (fst (parse stmts)) in
+  Clean sh -> UrisNonEmpty sh -> Spellable sh ->
+  items_of (reparse sh) = items_of sh /\ pairs (reparse sh) = pairs sh.
+Proof.
+  intros sh Hc Hu Hs. apply reparse_items; auto.
+  - apply run_allgood, parse_allgood.
+  - apply order_kept.
+Qed.
+
+(* ================================================================== a rejected operation leaves the sheet unchanged *)
+Lemma insert_rejected r idx io sh e : snd (insert_ns r idx io sh) = Raise e -> fst (insert_ns r idx io sh) = sh.
+Proof.
+  unfold insert_ns. destruct (place_ns idx io sh) as [i|]; [|reflexivity].
+  destruct (same_binding (view sh) r); [reflexivity|].
+  destruct (clean (insert_at i (RNs r) sh)) as [sh' oc]. destruct oc; simpl; [discriminate|reflexivity|discriminate].
+Qed.
+Lemma delete_rejected i sh e : snd (delete_rule i sh) = Raise e -> fst (delete_rule i sh) = sh.
+Proof.
+  unfold delete_rule. destruct (nth_error sh i) as [[r| | | |]|]; simpl; try discriminate; try reflexivity.
+  destruct (can_delete r sh); simpl; [discriminate|reflexivity].
+Qed.
+Lemma step_rejected o sh e : snd (step o sh) = Raise e -> fst (step o sh) = sh.
+Proof.
+  destruct o; simpl.
+  - unfold setitem. destruct (find_last p (nsl sh)) as [k|].
+    + destruct (nth_error (nsl sh) k); [|reflexivity].
+      destruct (dhas (view sh) p && negb (eqs (uri n) u)); [reflexivity|].
+      destruct (mems u (dvals (view sh))); simpl; discriminate.
+    + destruct u; [reflexivity|apply insert_rejected].
+  - unfold delitem. destruct (find_last p (nsl sh)) as [k|]; [|reflexivity].
+    destruct (ns_abs k sh); [apply delete_rejected|reflexivity].
+  - apply insert_rejected.
+  - apply insert_rejected.
+  - unfold insert_text. destruct (Nat.ltb _ _); [reflexivity|]. destruct (dhas (view sh) p); [reflexivity|apply insert_rejected].
+  - unfold insert_text. destruct (Nat.ltb _ _); [reflexivity|]. destruct (dhas (view sh) p); [reflexivity|apply insert_rejected].
+  - destruct (nth_error sh i) as [[r| | | |]|]; try (simpl; discriminate). apply delete_rejected.
+Qed.
+Lemma sstep_rejected o sh e : snd (sstep o sh) = Raise e -> fst (sstep o sh) = sh.
+Proof.
+  destruct o; simpl.
+  - destruct (get_style a sh) as [its|]; [|reflexivity]. destruct (Nat.ltb i (length its)); [|reflexivity].
+    destruct (resolve (view sh) pi); [simpl; discriminate|reflexivity].
+  - destruct (get_style a sh); [|reflexivity]. destruct (resolve_all (view sh) l); [simpl; discriminate|reflexivity].
+  - destruct (get_style a sh); [|reflexivity]. destruct (resolve (view sh) pi); [simpl; discriminate|reflexivity].
+  - destruct (get_style a sh) as [its|]; [|reflexivity].
+    destruct (Nat.ltb i (length its) && Nat.ltb 1 (length its)); [simpl; discriminate|reflexivity].
+  - destruct idx as [i|].
+    + destruct (Nat.ltb (length sh) i); [reflexivity|]. destruct (resolve_all (view sh) l); [|reflexivity].
+      destruct (existsb blocks_body (skipn i sh)); [reflexivity|simpl; discriminate].
+    + destruct (resolve_all (view sh) l); [simpl; discriminate|reflexivity].
+  - destruct (nth_error sh r) as [[| | | |]|]; try reflexivity.
+    destruct (Nat.ltb (length rs) _); [reflexivity|]. destruct (resolve_all (view sh) l); [simpl; discriminate|reflexivity].
+  - destruct a as [r|r j].
+    + destruct (nth_error sh r) as [[| | | |]|]; try reflexivity. simpl. discriminate.
+    + destruct (nth_error sh r) as [[| | | |]|]; try reflexivity. destruct (Nat.ltb j (length rs)); [simpl; discriminate|reflexivity].
+Qed.
+Lemma mstep_rejected o sh e : snd (mstep o sh) = Raise e -> fst (mstep o sh) = sh.
+Proof. destruct o; simpl; [apply step_rejected|apply sstep_rejected]. Qed.
